@@ -974,7 +974,8 @@ class Extractor:
                         nxt.append((pi + [it], ps))
                     else:
                         nxt.append((pi + [it], ps))
-                partial = dedupe(nxt)
+                # only an inlined call multiplies the partial paths; appending one item to distinct paths keeps them distinct
+                partial = dedupe(nxt) if it[0] == 'call' else nxt
                 if len(partial) > MAX_PATHS:
                     raise Unsupported('too many inlined paths in %s' % q)
             for pi, ps in partial:
@@ -1490,7 +1491,22 @@ def render_lean(tab, failures, root, der=None):
     return '\n'.join(L) + '\n'
 
 
+_GEN = {}
+
+
 def generate(root=None, derived=False):
+    """(table, failures[, (derived tables)]) — computed once per process and source root"""
+    key = os.path.realpath(root or repo_root())
+    if key not in _GEN:
+        _GEN[key] = _generate(root)
+    tab, failures, extra = _GEN[key]
+    if derived:
+        return tab, failures, extra
+    return tab, failures
+
+
+def _generate(root=None):
+    derived = True
     ex = Extractor(root)
     der = {}
     try:
